@@ -335,7 +335,7 @@ func genC06(c *RunCtx) []*Batch {
 				}
 			}
 		}
-		func() {
+		guarded(map[string]interface{}{"call": "Dump/DumpTable", "source": src}, func() {
 			defer func() {
 				if p := recover(); p != nil {
 					rep("Dump/DumpTable", p)
@@ -344,7 +344,7 @@ func genC06(c *RunCtx) []*Batch {
 			_ = eval.Dump(e)
 			_ = eval.DumpTable(e, false)
 			_ = eval.DumpTable(e, true)
-		}()
+		})
 		if len(samples) < 10 && kind != "valid" {
 			samples = append(samples, clip(src, 120))
 		}
